@@ -96,6 +96,8 @@ def run_bounded(prop, tier, seed, functions=None):
     if not rt.exists():
         return None
     out = VERIF / "work" / f"{prop}_bounded.json"
+    if out.exists():
+        out.unlink()
     cmd = [RT_PY, str(rt), "bounded", prop, "--tier", tier, "--seed", str(seed), "--out", str(out)]
     if functions:
         cmd += ["--functions", ",".join(functions)]
@@ -103,9 +105,13 @@ def run_bounded(prop, tier, seed, functions=None):
         r = subprocess.run(cmd, capture_output=True, text=True, timeout=3000, cwd=str(VERIF))
     except subprocess.TimeoutExpired:
         return {"error": "bounded stand-in timed out", "standins": []}
-    if r.returncode not in (0, 1) or not out.exists():
-        return {"error": (r.stdout + r.stderr)[-2000:], "standins": []}
-    return json.load(open(out))
+    if not out.exists():
+        return {"error": f"runtime layer exited with {r.returncode} and wrote nothing:\n" + (r.stdout + r.stderr)[-2000:],
+                "standins": []}
+    res = json.load(open(out))
+    if r.returncode not in (0, 1) and not res.get("error"):
+        res["error"] = f"runtime layer exited with {r.returncode}:\n" + (r.stdout + r.stderr)[-2000:]
+    return res
 
 
 def finish(prop, tier, seed, reg, repo, results, extra, t0):
